@@ -190,7 +190,8 @@ ValuateDay(case, st, norm, trx0) ==
 FilterDay(ws, we, z, trx) == IF ws <= z /\ z <= we THEN trx ELSE << >>
 
 \* ---------------------------------------------------------------- stage 4: close
-IsNominal(case, a) == ~IsAL(case.ty, a) /\ a # "Equity:Equity"
+\* period closing restarts the income and expense rows only; equity accounts other than Equity:Equity are permanent
+IsNominal(case, a) == case.ty[a] \in {"I", "X"}
 CloseDay(case, st, isStart, trx) ==
   LET ks == {k \in Accts(case) \X Comms(case) : IsNominal(case, k[1]) /\ (st.q[k[1]][k[2]] # 0 \/ st.v[k[1]][k[2]] # 0)}
       sk == SetToSeq(ks)
